@@ -680,6 +680,18 @@ fn malformed_case(front: Front, reg: Reg, idx: u64, rng: &mut Prng, col: &mut Co
     for m in 0..per_case {
         let kind = (idx + m) % 13;
         let (text, class) = mutate(&doc, kind, rng);
+        // the same malformed document as a format that does not describe itself hands it over: the
+        // fields in declaration order, as a sequence (seqform.rs) - failing is fine, unwinding is not
+        if let Ok(v) = serde_json::from_str::<serde_json::Value>(&text) {
+            match trap(|| crate::seqform::from_value::<lorawan_device::mac::Session>(&v)) {
+                Err(t) if t.loc.contains("lrv-") || t.loc.starts_with("/verif/") => col.event("malformed_positional_view_not_applicable"),
+                Err(t) => {
+                    col.violation(&format!("C20|malformed|positional-panic|{}|{}", class, short_loc(&t.loc)), "deserialising a malformed document from a positional format panicked", json!({"document": text, "msg": t.msg, "loc": t.loc}));
+                }
+                Ok(Err(_)) => col.event("malformed_positional_rejected"),
+                Ok(Ok(_)) => col.event("malformed_positional_accepted"),
+            }
+        }
         let parsed = trap(|| serde_json::from_str::<lorawan_device::mac::Session>(&text));
         match parsed {
             Err(t) => {
